@@ -61,6 +61,10 @@ def table : List (Nat × PCert) :=
 
 def P : Prims := ideal table
 
+/-- the certificates with the given table ids -/
+def certsOf (ids : List Nat) : List X509.Cert :=
+  ids.filterMap fun i => (table.find? (·.1 == i)).map (·.2.1)
+
 def policyOf : String → Option Policy
   | "none" => some .noClientCert | "request" => some .requestClientCert | "requireany" => some .requireAnyClientCert
   | "verifyifgiven" => some .verifyClientCertIfGiven | "requireverify" => some .requireAndVerifyClientCert
@@ -108,6 +112,14 @@ def serverOf : String → Option (Nat × Key × Nat × Key)
   | "s-dual" => some (50, 2001, 50, 2001)
   | "s-wrongeku-sign" => some (51, 2001, 11, 2002)
   | "s-wrongeku-enc" => some (10, 2001, 52, 2002)
+  -- the client trusts exactly the two end-entity certificates the server presents (pinning), no CA
+  | "s-pinned-ok" => some (10, 2001, 11, 2002)
+  | "s-pinned-expired-sign" => some (40, 2001, 11, 2002)
+  | "s-pinned-expired-enc" => some (10, 2001, 41, 2002)
+  | "s-pinned-notyet-sign" => some (42, 2001, 11, 2002)
+  | "s-pinned-wrongname" => some (44, 2001, 45, 2002)
+  | "s-pinned-wrongeku-sign" => some (51, 2001, 11, 2002)
+  | "s-pinned-other" => some (30, 2301, 31, 2302)          -- genuine certificates of the CA, but not the pinned ones
   | _ => none
 
 def skeAttacks : List String := ["ske-otherrandoms", "ske-otherclientrandom", "ske-otherserverrandom", "ske-swaprandoms",
@@ -259,7 +271,9 @@ def authOp (args : List String) : String :=
       | none => "bad-op"
       | some (c0, k0, c1, k1) =>
         let mkClient (random : Nat) (pms : Val) : Client :=
-          { insecureSkipVerify := isvS == "1", roots := [caMain], opts := (if attack.startsWith "s-ip6-" then ⟨0, "2001:db8::10", true, "2001:db8::10", []⟩
+          { insecureSkipVerify := isvS == "1",
+            roots := (if attack == "s-pinned-other" then certsOf [10, 11]
+                      else if attack.startsWith "s-pinned-" then certsOf [c0, c1] else [caMain]), opts := (if attack.startsWith "s-ip6-" then ⟨0, "2001:db8::10", true, "2001:db8::10", []⟩
               else if attack.startsWith "s-ip-" then ⟨0, "10.1.2.3", true, "10.1.2.3", []⟩
               else ⟨0, (if attack = "s-wildcard-deep" then "a.gm.test" else "gm.test"), false, "", []⟩),
             suites := [suite, other], ext := 7, cert := chain, key := ckey, random := random, pms := pms }
